@@ -77,7 +77,7 @@ def check(case, ctx):
     if handle == "filename" and not commit:
         # a file-name handle with commit=False can never persist anything; only the fault half applies
         ctx.label("filename-nocommit")
-    for at in [None] + list(range(0, n + 2)):
+    for at in case.get("faults") or ([None] + list(range(0, n + 2))):
         ctx.labels.append("loads")
         path = os.path.join(tmp, "db%s.sqlite" % ("ok" if at is None else at))
         _mkdb(path, hdr, prior)
@@ -157,5 +157,22 @@ def check(case, ctx):
     return None
 
 
-SUBS = [Sub("loads", check, strategy=case, quick=2400, thorough=40000)]
+def large_cases(tier):
+    for op in ("todb", "appenddb"):
+        for handle in HANDLES:
+            for commit in (True, False):
+                yield {"op": op, "handle": handle, "commit": commit, "n": 2300}
+
+
+def check_large(case, ctx):
+    """Same oracle as `check`, on a table of 2300 rows with faults at data rows 1000, 1001, 2000 and at exhaustion (a loader
+    that commits per batch would persist the first batches)."""
+    n = case["n"]
+    c = {"header": ["a", "b"], "prior": [[-1, "old"], [-2, "older"]], "new": [[i, "r%d" % i] for i in range(n)], "op": case["op"],
+         "handle": case["handle"], "commit": case["commit"], "source_kind": "list", "schema": "none", "faults": [None, 1001, 1002, 2001, n + 1]}
+    return check(c, ctx)
+
+
+SUBS = [Sub("loads", check, strategy=case, quick=2400, thorough=40000),
+        Sub("large", check_large, enumerate=large_cases)]
 KNOWN = {}
